@@ -158,9 +158,14 @@ def cases(c):
             nf0 = max(E.min_nfft(cls, params, N), N if cls in ('Periodogram', 'MultiTapering') else 0)
             NFFT = gen.pick(rng, [None if nf0 <= N else nf0, nf0 + int(rng.integers(0, 50))])
             cc = draw_c(rng, cplx, i)
-            out.append({'form': 'class', 'cls': cls, 'cplx': cplx, 'N': N, 'kind': gen.pick(rng, kinds_for(cls)),
-                        'p': params, 'NFFT': NFFT, 'fs': gen.pick(rng, [1.0, 2.0, 1000.0]),
-                        'c': [float(np.real(cc)), float(np.imag(cc))], 'j': j})
+            dcl = {'form': 'class', 'cls': cls, 'cplx': cplx, 'N': N, 'kind': gen.pick(rng, kinds_for(cls)),
+                   'p': params, 'NFFT': NFFT, 'fs': gen.pick(rng, [1.0, 2.0, 1000.0]),
+                   'c': [float(np.real(cc)), float(np.imag(cc))], 'j': j}
+            if cplx and j % 5 == 0:
+                dcl['line'] = gen.pick(rng, ['real-axis', 'imag-axis'])
+                cr = gen.pick(rng, [2j, -1j, 3 * np.exp(0.7j), 0.01j])
+                dcl['c'] = [float(np.real(cr)), float(np.imag(cr))]
+            out.append(dcl)
             i += 1
     return out
 
@@ -271,9 +276,13 @@ def decision_margin_ok(d, x):
 def run_case(c, d):
     cplx = bool(d['cplx'])
     cc = complex(d['c'][0], d['c'][1]) if cplx else float(d['c'][0])
-    x = gen.data({'kind': d['kind'], 'N': d['N'], 'cplx': cplx}, c.rng(d, 'x'))
+    x = gen.data({'kind': d['kind'], 'N': d['N'], 'cplx': cplx and not d.get('line')}, c.rng(d, 'x'))
     if np.asarray(x).dtype.kind == 'i':
         x = x.astype(float)
+    if d.get('line') == 'real-axis':
+        x = x.astype(complex)                 # complex-typed samples that all lie on the real axis
+    elif d.get('line') == 'imag-axis':
+        x = 1j * x.astype(complex)
     c.set_nontrivial(abs(abs(cc) - 1) > 1e-12)
     name = d.get('fn') or d['cls']
     feats = {'form': d['form'], 'cls' if d['form'] == 'class' else 'fn': name, 'cplx': cplx,
